@@ -1283,6 +1283,66 @@ func ruleKWCASE(c *Ctx, r *Report) {
 			r.bad(rule, "keyword|"+kw, "-", "package lex never produces "+typ+" for the keyword "+kw)
 		}
 	}
+	// conversely: wherever a function that classifies keywords produces TLiteral, the word is known not
+	// to be a keyword (all four excluded) — otherwise a keyword is a term or an operator depending on
+	// something else (e.g. the character that follows)
+	for _, f := range c.Funcs {
+		if fnPkgPath(f) != pkgLex {
+			continue
+		}
+		producesKW := false
+		type site struct {
+			in ssa.Instruction
+		}
+		var lits []ssa.Instruction
+		for _, b := range f.Blocks {
+			for _, in := range b.Instrs {
+				typ := ""
+				switch x := in.(type) {
+				case ssa.CallInstruction:
+					sc := staticCallee(x)
+					if (sc == lr.Emit || (lr.ToTok != nil && sc == lr.ToTok)) && len(x.Common().Args) >= 2 {
+						typ = c.key(x.Common().Args[1], nil)
+					}
+				case *ssa.Return:
+					if len(x.Results) == 1 && isNamed(x.Results[0].Type(), pkgLex, "TokType") {
+						if k, ok := x.Results[0].(*ssa.Const); ok {
+							typ = c.constName(k)
+						}
+					}
+				}
+				if want[typ] != "" {
+					producesKW = true
+				}
+				if typ == "lex.TLiteral" {
+					lits = append(lits, in)
+				}
+			}
+		}
+		if !producesKW {
+			continue
+		}
+		for _, in := range lits {
+			excluded := map[string]bool{}
+			for _, a := range c.atomsAt(in) {
+				if a.Kind == "cmp" && a.Op == "!=" && strings.HasPrefix(a.Val, `"`) {
+					excluded[strings.Trim(a.Val, `"`)] = true
+				}
+			}
+			var missing []string
+			for _, kw := range []string{"AND", "NOT", "OR", "TO"} {
+				if !excluded[kw] {
+					missing = append(missing, kw)
+				}
+			}
+			key := fnName(f) + "|literal-excludes-keywords"
+			if len(missing) == 0 {
+				r.ok(rule, key, c.instrPos(in), "a plain term is produced only when the word is none of the keywords")
+			} else {
+				r.bad(rule, key, c.instrPos(in), fmt.Sprintf("%s can classify a word as a plain term without having excluded the keywords %v: the same spelling is an operator in one context and a term in another (e.g. depending on the next character or on whitespace)", fnName(f), missing))
+			}
+		}
+	}
 }
 
 // PHRASE-LOOP (C08)
@@ -1413,4 +1473,203 @@ func rulePARSEERR(c *Ctx, r *Report) {
 	} else {
 		r.bad(rule, "never-shift-err-eof", c.pos(pr.ShouldShift.Pos()), "the shift predicate shifts an error or end-of-input token for some operator on the stack: a lexical error could end up inside an accepted tree")
 	}
+}
+
+// LEX-DISPATCH (C16/C06): the first-rune dispatch of the lexer as a table over all ASCII runes.
+func ruleLEXDISPATCH(c *Ctx, r *Report) {
+	const rule = "LEX-DISPATCH"
+	r.doc(rule, "the dispatching state (the one that sets start = pos) folded at every ASCII rune and two non-ASCII probes: the set of feasible outcomes (token type emitted / next state / lexical error) is compared with the oracle — the 13 symbols give their token types, letters digits _ * ? \\ start a word, quotes a phrase, / a regexp, - a minus or a number, everything else is a lexical error")
+	lr := c.lexPreamble(r, rule)
+	if lr == nil {
+		return
+	}
+	var disp *ssa.Function
+	for _, fs := range c.lexStores(lr) {
+		if fs.field == lr.StartF {
+			for _, s := range lr.States {
+				if s == fs.fn {
+					disp = s
+				}
+			}
+		}
+	}
+	if disp == nil {
+		r.bad(rule, "dispatcher", "-", "no state function sets start = pos (token start)")
+		return
+	}
+	rk := fnName(lr.Advance) + "($0)"
+	paths, complete := c.enumPaths(disp, 5000)
+	if !complete {
+		r.bad(rule, "paths", c.pos(disp.Pos()), "too many paths")
+		return
+	}
+	symTok := map[rune]string{'(': "TLParen", ')': "TRParen", '[': "TLSquare", ']': "TRSquare", '{': "TLCurly", '}': "TRCurly", ':': "TColon", '+': "TPlus", '=': "TEqual", '>': "TGreater", '<': "TLess", '~': "TTilde", '^': "TCarrot"}
+	// which states consume which kind of token
+	kindOf := func(f *ssa.Function) string {
+		switch {
+		case c.emitsConst(lr, f, "lex.TQuoted"):
+			return "phrase"
+		case c.emitsConst(lr, f, "lex.TRegexp"):
+			return "regexp"
+		}
+		return "word"
+	}
+	oracle := func(ch rune) []string {
+		switch {
+		case symTok[ch] != "":
+			return []string{"tok:" + symTok[ch]}
+		case ch == '_' || ch == '*' || ch == '?' || ch == '\\' || ch >= '0' && ch <= '9' || ch >= 'a' && ch <= 'z' || ch >= 'A' && ch <= 'Z' || ch == 0xE9:
+			return []string{"state:word"}
+		case ch == '"' || ch == '\'':
+			return []string{"state:phrase"}
+		case ch == '/':
+			return []string{"state:regexp"}
+		case ch == '-':
+			return []string{"state:word", "tok:TMinus"}
+		}
+		return []string{"error"}
+	}
+	probes := []rune{}
+	for ch := rune(0); ch < 128; ch++ {
+		if ch == ' ' || ch == '\t' || ch == '\n' || ch == '\r' {
+			continue // consumed by the skipping state before the dispatcher runs
+		}
+		probes = append(probes, ch)
+	}
+	probes = append(probes, 0xE9, 0x20AC)
+	nOK, nBad := 0, 0
+	for _, ch := range probes {
+		got := map[string]bool{}
+		undecided := ""
+		for _, p := range paths {
+			feasible := true
+			for _, a := range p.Atoms {
+				if a.Subj != rk && a.Val != rk {
+					continue
+				}
+				f, known := c.atomFalseAt(a, rk, int64(ch))
+				if known && f {
+					feasible = false
+				}
+				if !known && a.Kind == "call" && a.Val == rk {
+					// membership in a constant table (isSymbol) or an unmodelled predicate
+					if b, ok := c.tablePredAt(a, int64(ch)); ok {
+						if b != a.Pos {
+							feasible = false
+						}
+					} else {
+						undecided = a.String()
+					}
+				}
+			}
+			if !feasible {
+				continue
+			}
+			out := ""
+			for _, in := range p.Instrs {
+				call, ok := in.(ssa.CallInstruction)
+				if !ok {
+					continue
+				}
+				sc := staticCallee(call)
+				switch {
+				case sc == lr.Errorf:
+					out = "error"
+				case sc == lr.Emit || (lr.ToTok != nil && sc == lr.ToTok):
+					out = "tok:" + c.tokArgAt(call.Common().Args[1], rk, int64(ch))
+				}
+			}
+			if p.Ret != nil && out == "" {
+				if g, ok := c.resolve(p.Ret.Results[0], p.Env).(*ssa.Function); ok {
+					out = "state:" + kindOf(g)
+				} else {
+					out = "none"
+				}
+			}
+			if out != "" {
+				got[out] = true
+			}
+		}
+		want := oracle(ch)
+		gs := setKeys(got)
+		sort.Strings(want)
+		key := fmt.Sprintf("rune|%q", ch)
+		if undecided != "" {
+			nBad++
+			r.bad(rule, key, c.pos(disp.Pos()), fmt.Sprintf("cannot fold the dispatch condition %s at %q", undecided, ch))
+			continue
+		}
+		if strings.Join(gs, ",") == strings.Join(want, ",") {
+			nOK++
+			continue
+		}
+		nBad++
+		if nBad <= 10 {
+			r.bad(rule, key, c.pos(disp.Pos()), fmt.Sprintf("a token starting with %q is dispatched to %v; the query language requires %v (a character that cannot start a token must be a lexical error; symbols must give their operator token)", ch, gs, want))
+		}
+	}
+	if nBad == 0 {
+		r.ok(rule, "table", c.pos(disp.Pos()), fmt.Sprintf("%d first runes folded through %s, all outcomes agree with the oracle", nOK, fnName(disp)))
+	}
+	r.extra["lex_dispatch_runes"] = len(probes)
+}
+
+// tablePredAt: a helper predicate that is a membership test in a constant rune-keyed table.
+func (c *Ctx) tablePredAt(a Atom, rv int64) (bool, bool) {
+	if a.Fn == nil || !inModule(a.Fn) {
+		return false, false
+	}
+	b, why := c.runePredAt(a.Fn, rv)
+	if why != "" {
+		return false, false
+	}
+	return b, true
+}
+
+// tokArgAt: the token type passed to emit, evaluated at the dispatched rune (constant, or a lookup
+// in a constant table keyed by the rune, or a helper call on the rune).
+func (c *Ctx) tokArgAt(v ssa.Value, rk string, rv int64) string {
+	v = c.resolve(v, nil)
+	if k, ok := v.(*ssa.Const); ok {
+		return strings.TrimPrefix(c.constName(k), "lex.")
+	}
+	toks := c.tokTypeConsts()
+	name := func(n int64) string {
+		for k, val := range toks {
+			if val == n {
+				return k
+			}
+		}
+		return fmt.Sprint(n)
+	}
+	if lk, ok := v.(*ssa.Lookup); ok {
+		if ld, ok := lk.X.(*ssa.UnOp); ok {
+			if g, ok := ld.X.(*ssa.Global); ok {
+				tb := c.readTable(g.Pkg.Pkg.Path(), g.Name())
+				for _, e := range tb.Entries {
+					if n, ok := constIntVal(e.Key); ok && n == rv {
+						if kv, ok := e.Val.(*ssa.Const); ok {
+							return strings.TrimPrefix(c.constName(kv), "lex.")
+						}
+					}
+				}
+				return "zero-value"
+			}
+		}
+	}
+	if ex, ok := v.(*ssa.Extract); ok {
+		v = ex.Tuple
+	}
+	if call, ok := v.(*ssa.Call); ok && call.Call.StaticCallee() != nil && inModule(call.Call.StaticCallee()) && len(call.Call.Args) == 1 {
+		ev := &enumEval{c: c, asg: map[string]int64{"$0": rv}}
+		f := call.Call.StaticCallee()
+		if f.Signature.Results().Len() == 1 {
+			if res, ok := ev.callFn(f, []string{"$0"}); ok {
+				if n, isInt := res.(int64); isInt {
+					return name(n)
+				}
+			}
+		}
+	}
+	return "?" + c.key(v, nil)
 }
